@@ -749,6 +749,8 @@ def _tree(P, pos, C, cfg, ccfg):
 
 
 def _only_parens(P, pos, C, cfg, ccfg):
+    if C == "GeneratorExp":
+        return False  # a generator expression carries its own parentheses (or is the sole argument of a call): losing them is not this finding
     node = _tree(P, pos, C, cfg, ccfg)
     if not _valid_tree(node):
         return False
@@ -788,7 +790,10 @@ def _shape_pre(P, pos, C, cfg, ccfg):
     if not (0 <= cfg < len(CFG[P]) and 0 <= ccfg < len(CFG[C])):
         return False
     if THOROUGH:
-        return True  # the full product
+        # the full product where both are operator-like; elsewhere the first 12 configurations of each side (the kinds with more - calls,
+        # comparisons, slices, comprehensions - are fully covered against a representative partner by the quick clauses below)
+        if (P in OPERATOR_KINDS and C in OPERATOR_KINDS) or (cfg < 12 and ccfg < 12):
+            return True
     # quick: every parent configuration with a representative child of 10 kinds; the first 6 configurations of every child kind
     # under a representative parent; the 6 x 6 product where both are operator-like (precedence interplay)
     if ccfg == 0 and (cfg == 0 or C in REP_KIDS):
@@ -832,7 +837,7 @@ def _shape_body(P, pos, C, cfg, ccfg):
     drives=[get_expression, E._build, E._yield, E._join] + [getattr(E, n).iterate for n in dir(E) if n.startswith("Expr") and isinstance(getattr(E, n), type) and "iterate" in vars(getattr(E, n))],
     bounds={"tree": "parent node (every type in expressions._node_map) with one child position holding a child node (every type), all other operands are names: depth 2",
             "configurations (count, operator/variant, presence mask) per kind": {kd: dict(zip(("count", "operator/variant", "presence mask"), sp)) for kd, sp in SPACE.items()},
-            "product": "thorough: every parent configuration x every child configuration; quick: every parent configuration with a representative child of 10 kinds, the first 6 configurations of every child kind under a representative parent, 6 x 6 where both are operator-like"},
+            "product": "thorough: the quick product plus 12 x 12 configurations everywhere and the full product where both are operator-like; quick: every parent configuration with a representative child of 10 kinds, the first 6 configurations of every child kind under a representative parent, 6 x 6 where both are operator-like"},
     value_symbolic=["cfg, ccfg: index of the parent's / child's configuration = (element count, operator or constant index, presence mask: slice bounds, starred / keyword / ** arguments, ** dict entry, comprehension ifs, async, f-string text)"],
     selectors=["parent kind, child position, child kind (driver-bound: full cross product)"],
     stubs=STUBS + ["hand-built ast nodes; a tree is only considered if CPython can produce it (ast.unparse -> ast.parse gives the same tree)",
